@@ -1274,6 +1274,7 @@ def m_count(E, st, fid, t, args, dest_ty):
     def on_item(s, item):
         return [('cont', s)]
 
+    E.view_zone = st.zone
     mids0 = tuple(sorted(x[1] for x in E.sliceits_in(E.peek(st, it_ptr))))
 
     def on_none(s):
